@@ -412,27 +412,23 @@ def r2c_input_configuration(a, tier):
                 rep.fail(bw.qualname, f'whitespace:{what}', f'{c.split(".")[-1]}.build_whitespace_re({what}) gives {got!r}; documented: '
                          f'{"the default whitespace regex" if want is default else repr(want)}', bw.loc)
         init = a.p.func(f'{c}.__init__')
-        expr = None
-        for n in walk_no_defs(init.node):
-            if isinstance(n, ast.Assign) and norm(n.targets[0]) == 'self.nameguard':
-                expr = n.value
-        if expr is None:
-            raise AnalysisError(f'{init.qualname}: assignment to self.nameguard not found')
-        cfgname = next((p_ for p_ in init.params if 'config' in p_), 'config')
+        from ..modelinterp import Hook, ModelInterp, Stub
+        nop = Hook(lambda *_a, **_k: None)
         for ng in (None, True, False):
             for ws in (None, given):
                 for nc in ('', '-', None):
-                    env = {'self': Obj(whitespace_re=ws), cfgname: Obj(nameguard=ng, namechars=nc, whitespace=ws)}
-                    for k_, v_ in list(env.items()):
-                        env.setdefault('config', env[cfgname])
+                    cfg = Obj(nameguard=ng, namechars=nc, whitespace=ws)
+                    me = Stub(c, _preprocess=nop, _postprocess=nop, build_whitespace_re=Hook(lambda w: w))
+                    it = ModelInterp(a, {'ParserConfig': Hook(lambda *_a, **_k: cfg, new=Hook(lambda *_a, **_k: cfg))})
                     try:
-                        got = MiniEval({}).expr(expr, env)
+                        it.call_fn(init, [me, 'text'])
                     except Unsupported as e:
-                        raise AnalysisError(f'cannot interpret the nameguard derivation of {c}: {e}') from e
+                        raise AnalysisError(f'cannot interpret {init.qualname}: {e}') from e
+                    got = me._attrs.get('nameguard', '<not set>')
                     want = ng if ng is not None else (ws is not None or bool(nc))
                     rep.add({'input': c.split('.')[-1], 'nameguard_setting': ng, 'skips_whitespace': ws is not None, 'namechars': nc,
                              'nameguard': got, 'want': want})
-                    if bool(got) != want or (ng is not None and got is not ng):
+                    if got == '<not set>' or bool(got) != want or (ng is not None and got is not ng):
                         rep.fail(init.qualname, f'nameguard:{ng}:{ws is not None}:{nc!r}', f'{c.split(".")[-1]}: nameguard setting {ng}, whitespace '
                                  f'{"skipped" if ws is not None else "not skipped"}, namechars {nc!r} -> nameguard={got}; required {want} '
                                  f'(the explicit setting wins; otherwise on iff whitespace is skipped or namechars are given)', init.loc)
